@@ -424,3 +424,284 @@ func SolRunParser(path, fn string, data []byte, consts map[string]*big.Int) (*So
 	}
 	return res, nil
 }
+
+// ---------------------------------------------------------------- general parseVM interpreter (fallback)
+
+// SolParseVM2 interprets parseVM with the typed interpreter used for the governance parsers, extended by what a
+// rewritten parseVM may use: typed locals with or without initialiser, plain assignments, `unchecked { ... }` blocks
+// (arithmetic wraps in the operands' type instead of reverting), require with any comparison, array allocation,
+// per-signature fields, `+ literal` after a read, slices with explicit bounds and the double-hash statement. It is
+// tried when the literal interpreter (SolParseVM) meets a statement it does not know.
+func SolParseVM2(body string, data []byte) (vm *SolVM, revert bool, err error) {
+	vm = &SolVM{Fields: map[string]uint64{}, Bytes32: map[string][]byte{}}
+	var stmts []string
+	for _, l := range strings.Split(body, "\n") {
+		l = strings.TrimSpace(strings.TrimSuffix(strings.TrimSpace(l), ";"))
+		if l != "" {
+			stmts = append(stmts, l)
+		}
+	}
+	vars := map[string]solVal{}
+	bytesVars := map[string][]byte{}
+	index := -1
+	unchecked := 0
+	arg := "encodedVM"
+	short := func(lhs string) (string, int) {
+		lhs = strings.TrimSpace(lhs)
+		if m := reSolDecl.FindStringSubmatch(lhs); m != nil {
+			b := 256
+			if strings.HasPrefix(m[1], "uint") && len(m[1]) > 4 {
+				b, _ = strconv.Atoi(m[1][4:])
+			}
+			return m[2], b
+		}
+		return lhs, 0
+	}
+	wrap := func(v *big.Int, bits int) *big.Int {
+		if bits <= 0 {
+			return v
+		}
+		m := new(big.Int).Lsh(big.NewInt(1), uint(bits))
+		return new(big.Int).Mod(v, m)
+	}
+	var eval func(e string) (solVal, bool, error)
+	eval = func(e string) (solVal, bool, error) {
+		e = strings.TrimSpace(e)
+		for _, op := range []string{"+", "-", "*"} {
+			depth := 0
+			for i := len(e) - 1; i > 0; i-- {
+				switch e[i] {
+				case ')':
+					depth++
+				case '(':
+					depth--
+				}
+				if depth == 0 && string(e[i]) == op {
+					a, oa, err := eval(e[:i])
+					if err != nil || oa {
+						return a, oa, err
+					}
+					b, ob, err := eval(e[i+1:])
+					if err != nil || ob {
+						return b, ob, err
+					}
+					bits := a.bits
+					if b.bits > bits {
+						bits = b.bits
+					}
+					out := new(big.Int)
+					switch op {
+					case "+":
+						out.Add(a.v, b.v)
+					case "-":
+						out.Sub(a.v, b.v)
+					default:
+						out.Mul(a.v, b.v)
+					}
+					if bits == 0 {
+						return solVal{out, 0}, false, nil
+					}
+					if out.Sign() < 0 || out.BitLen() > bits {
+						if unchecked > 0 {
+							return solVal{wrap(out, bits), bits}, false, nil
+						}
+						return solVal{out, bits}, true, nil
+					}
+					return solVal{out, bits}, false, nil
+				}
+			}
+		}
+		if strings.HasPrefix(e, "(") && strings.HasSuffix(e, ")") {
+			return eval(e[1 : len(e)-1])
+		}
+		if n, ok := new(big.Int).SetString(e, 0); ok {
+			return solVal{n, 0}, false, nil
+		}
+		if e == "index" {
+			return solVal{big.NewInt(int64(index)), 256}, false, nil
+		}
+		if e == arg+".length" {
+			return solVal{big.NewInt(int64(len(data))), 256}, false, nil
+		}
+		if m := regexp.MustCompile(`^` + arg + `\.to(Uint8|Uint16|Uint32|Uint64|Bytes32)\(index\)$`).FindStringSubmatch(e); m != nil {
+			n := solWidth[m[1]]
+			if index < 0 || index+n > len(data) {
+				return solVal{}, true, nil
+			}
+			return solVal{new(big.Int).SetBytes(data[index : index+n]), 8 * n}, false, nil
+		}
+		if v, ok := vars[e]; ok {
+			return v, false, nil
+		}
+		if strings.HasPrefix(e, "vm.") {
+			if u, ok := vm.Fields[strings.TrimPrefix(e, "vm.")]; ok {
+				return solVal{new(big.Int).SetUint64(u), 256}, false, nil
+			}
+		}
+		return solVal{}, false, fmt.Errorf("operand %q not understood", e)
+	}
+	reCmp := regexp.MustCompile(`^(.*?)(==|!=|>=|<=|>|<)(.*)$`)
+	reSlice := regexp.MustCompile(`^(.+?)\s*=\s*` + arg + `\.slice\((.+),\s*(.+)\)$`)
+	reNew := regexp.MustCompile(`^vm\.signatures\s*=\s*new Structs\.Signature\[\]\(([A-Za-z_]+)\)$`)
+	var exec func(list []string, it int) (bool, error)
+	exec = func(list []string, it int) (bool, error) {
+		for i := 0; i < len(list); i++ {
+			st := list[i]
+			switch {
+			case st == "unchecked {":
+				unchecked++
+			case st == "}" && unchecked > 0:
+				unchecked--
+			case reSolIndex.MatchString(st):
+				k, _ := strconv.Atoi(reSolIndex.FindStringSubmatch(st)[1])
+				index += k
+			case reSolDecl.MatchString(st): // declaration without initialiser
+				n, b := short(st)
+				vars[n] = solVal{big.NewInt(0), b}
+			case reSolRequire.MatchString(st):
+				cond := reSolRequire.FindStringSubmatch(st)[1]
+				m := reCmp.FindStringSubmatch(cond)
+				if m == nil {
+					return false, fmt.Errorf("require condition not understood: %q", st)
+				}
+				a, oa, err := eval(m[1])
+				if err != nil {
+					return false, err
+				}
+				b, ob, err := eval(m[3])
+				if err != nil {
+					return false, err
+				}
+				if oa || ob {
+					return true, nil
+				}
+				c := a.v.Cmp(b.v)
+				ok := map[string]bool{"==": c == 0, "!=": c != 0, ">=": c >= 0, "<=": c <= 0, ">": c > 0, "<": c < 0}[m[2]]
+				if !ok {
+					return true, nil
+				}
+			case reNew.MatchString(st):
+				n, ok := vars[reNew.FindStringSubmatch(st)[1]]
+				if !ok {
+					return false, fmt.Errorf("allocation size not understood: %q", st)
+				}
+				vm.Sigs = make([]map[string][]byte, n.v.Int64())
+				for k := range vm.Sigs {
+					vm.Sigs[k] = map[string][]byte{}
+				}
+			case reSolForGen.MatchString(st):
+				bound, ok := vars[reSolForGen.FindStringSubmatch(st)[1]]
+				if !ok {
+					return false, fmt.Errorf("loop bound not understood: %q", st)
+				}
+				j, d := i+1, 1
+				for ; j < len(list); j++ {
+					if strings.HasSuffix(list[j], "{") {
+						d++
+					}
+					if list[j] == "}" {
+						d--
+						if d == 0 {
+							break
+						}
+					}
+				}
+				if j >= len(list) {
+					return false, fmt.Errorf("unterminated for loop")
+				}
+				for k := int64(0); k < bound.v.Int64(); k++ {
+					if rv, err := exec(list[i+1:j], int(k)); rv || err != nil {
+						return rv, err
+					}
+				}
+				i = j
+			case reSlice.MatchString(st):
+				m := reSlice.FindStringSubmatch(st)
+				a, oa, err := eval(m[2])
+				if err != nil {
+					return false, err
+				}
+				b, ob, err := eval(m[3])
+				if err != nil {
+					return false, err
+				}
+				if oa || ob || !a.v.IsInt64() || !b.v.IsInt64() || a.v.Int64() < 0 || b.v.Int64() < 0 || a.v.Int64()+b.v.Int64() > int64(len(data)) {
+					return true, nil
+				}
+				bs := append([]byte{}, data[a.v.Int64():a.v.Int64()+b.v.Int64()]...)
+				switch strings.TrimSpace(m[1]) {
+				case "bytes memory body":
+					bytesVars["body"] = bs
+				case "vm.payload":
+					vm.Payload = bs
+				default:
+					return false, fmt.Errorf("slice target not understood: %q", st)
+				}
+			case st == "vm.hash = keccak256(abi.encodePacked(keccak256(body)))":
+				vm.HashBody = true
+				vm.Body = bytesVars["body"]
+			case strings.Contains(st, "=") && !strings.Contains(st, "=="):
+				k := strings.Index(st, "=")
+				lhs, rhs := strings.TrimSpace(st[:k]), strings.TrimSpace(st[k+1:])
+				if m := regexp.MustCompile(`^` + arg + `\.toBytes32\(index\)$`).FindStringSubmatch(rhs); m != nil {
+					if index < 0 || index+32 > len(data) {
+						return true, nil
+					}
+					b := append([]byte{}, data[index:index+32]...)
+					switch {
+					case strings.HasPrefix(lhs, "vm.signatures[i]."):
+						vm.Sigs[it][strings.TrimPrefix(lhs, "vm.signatures[i].")] = b
+					case strings.HasPrefix(lhs, "vm."):
+						vm.Bytes32[strings.TrimPrefix(lhs, "vm.")] = b
+					default:
+						return false, fmt.Errorf("bytes32 target not understood: %q", st)
+					}
+					continue
+				}
+				v, ov, err := eval(rhs)
+				if err != nil {
+					return false, fmt.Errorf("%v in %q", err, st)
+				}
+				if ov {
+					return true, nil
+				}
+				name, bits := short(lhs)
+				switch {
+				case strings.HasPrefix(lhs, "vm.signatures[i]."):
+					if it < 0 || it >= len(vm.Sigs) {
+						return true, nil // index out of bounds of the allocated array
+					}
+					vm.Sigs[it][strings.TrimPrefix(lhs, "vm.signatures[i].")] = []byte{byte(v.v.Uint64())}
+				case strings.HasPrefix(lhs, "vm."):
+					vm.Fields[strings.TrimPrefix(lhs, "vm.")] = v.v.Uint64()
+				default:
+					if bits == 0 {
+						if old, ok := vars[name]; ok {
+							bits = old.bits
+						}
+					}
+					if bits > 0 && v.v.BitLen() > bits {
+						if unchecked == 0 && v.bits > bits {
+							return false, fmt.Errorf("implicit narrowing in %q", st)
+						}
+						v.v = wrap(v.v, bits)
+					}
+					if bits == 0 {
+						bits = v.bits
+					}
+					if name == "index" {
+						index = int(v.v.Int64())
+					} else {
+						vars[name] = solVal{v.v, bits}
+					}
+				}
+			default:
+				return false, fmt.Errorf("parseVM statement not understood: %q", st)
+			}
+		}
+		return false, nil
+	}
+	// `uint index = 0` is an ordinary typed declaration with initialiser for this interpreter
+	rv, err := exec(stmts, -1)
+	return vm, rv, err
+}
